@@ -899,7 +899,7 @@ class Walker:
                         for c in p.conds:
                             if is_param_rooted(c):
                                 hs.add(c)
-                        hs.ev("caught", self.site(h), p.exc, tuple(names), p.site())
+                        hs.ev("caught", self.site(h), p.exc, tuple(names), p.site(), p.conds, p.chain)
                         for s2, k2, p2 in self.block(h.body, hs):
                             s2.env.pop("$exc", None)
                             if h.name:
